@@ -490,27 +490,6 @@ CLASSES["Transition"].methods["_copy_with_args"] = C(TRQ + "_copy_with_args")
 CLASSES["State"].props["final"] = INL(STQ + "State.final")
 
 
-class CopyWithArgs(Contract):
-    """Transition._copy_with_args(source=..., event=...) — ASSUMED here: a fresh transition from the given
-    source to the same target, same `internal`, with copies of the specs (own contract: TODO)."""
-
-    qualnames = [TRQ + "_copy_with_args"]
-    params = [("self", "Transition"), ("source", "State"), ("event", "Val")]
-    returns = "Transition"
-    modifies = ["Transition.source+", "Transition.target+", "Transition.internal+", "Transition._events+", "Transition._specs+",
-                "Transition.validators+", "Transition.before+", "Transition.on+", "Transition.after+", "Transition.cond+"]
-    trusted = True
-
-    def post(self, s0, s, a, r):
-        return {"fresh-copy-from-the-given-source": z3.And(
-            r.e >= s0["ghost.alloc"], r.e < s["ghost.alloc"], s.sel("Transition.source", r) == a.source.e,
-            s.sel("Transition.target", r) == s0.sel("Transition.target", a.self.e),
-            s.sel("Transition.internal", r) == s0.sel("Transition.internal", a.self.e))}
-
-    def assumptions(self):
-        return ["Transition._copy_with_args: assumed contract (fresh copy with the given source, same target)"]
-
-
 @register
 class AnyOnEventDefined(Contract):
     """AnyState._on_event_defined(event, transition, states) (C09, C15): `from_.any()` means one copy
